@@ -307,6 +307,14 @@ func Run(r *rt.Run) error {
 		}
 		emitS(items, fmt.Sprintf("sr/%d", i))
 	}
+	// out-of-order recordings: a later point older than the first one (the shift stays the one fixed by the first point)
+	for oi, order := range [][]int{{1005, 1001, 1009}, {1005, 1009, 1000, 1005}, {1002, 1002, 1001}} {
+		var items []sItem
+		for _, tm := range order {
+			items = append(items, sItem{"db", "rp", "m", map[string]string{"host": "a"}, map[string]any{"f": int64(tm)}, tm})
+		}
+		emitS(items, fmt.Sprintf("so/%d", oi))
+	}
 	// ---- batch
 	emitB := func(items []bItem, key string) {
 		for _, rec := range modes {
@@ -333,6 +341,14 @@ func Run(r *rt.Run) error {
 			emitB([]bItem{b1, b2}, fmt.Sprintf("b/%s/%d", vc.name, gi))
 		}
 	}
+	// point tags that differ from the group tags: same size/different content, superset, equal
+	// (a point with NO tags inside a tagged group is not explored: the batch decoder documents a fallback
+	// "point without tags inherits the batch tags", and real batches never contain such a point)
+	gt := map[string]string{"host": "a"}
+	for pi, ptags := range []map[string]string{{"dc": "x"}, {"host": "b"}, {"host": "a", "dc": "x"}, {"host": "a"}} {
+		emitB([]bItem{{name: "m", gtags: gt, dims: []string{"host"}, tmax: 1010, pts: []sItem{
+			{tags: ptags, fields: map[string]any{"f": 1.5}, t: 1001}, {tags: gt, fields: map[string]any{"f": 2.5}, t: 1004}}}}, fmt.Sprintf("b/ptags/%d", pi))
+	}
 	// empty batches, two groups interleaved, tmax beyond the last point
 	g1 := map[string]string{"host": "a"}
 	g2 := map[string]string{"host": "b"}
@@ -341,6 +357,7 @@ func Run(r *rt.Run) error {
 		{name: "m", gtags: g2, dims: []string{"host"}, tmax: 1010, pts: []sItem{}},
 		{name: "m", gtags: g2, dims: []string{"host"}, tmax: 1020, pts: []sItem{{tags: g2, fields: map[string]any{"f": int64(2)}, t: 1012}, {tags: g2, fields: map[string]any{"f": int64(3)}, t: 1020}}},
 	}, "b/empty")
+	runArchive(r, t)
 	r.Extra["value_classes"] = len(vclasses)
 	r.Extra["tag_sets"] = len(tagsets)
 	r.Finish("every value class (ints incl. beyond 2^53 and MinInt64, floats incl. integral, bools, strings with quote/comma/space/newline/unicode/backslash/equals) x tag sets (empty, spaces, commas, equals, unicode) recorded and replayed as stream points and as batches (3 group shapes, empty batch, tmax beyond the last point), in both clock modes and for 3 clock zeros (later, earlier, far earlier than the data); plus seeded random sequences; distinct by case key", false)
